@@ -46,11 +46,13 @@ Section Oracles.
   Notation verify := (EvmProof.verify keccak256 mpt_verify json_proof).
   Notation proof_key := (EvmProof.proof_key keccak256).
 
-  (** ** Exact characterisation of acceptance (at the level of the oracles) *)
-  Definition accept_spec (cs : client_state) (cstore : bytes -> cons_entry) (h : height) (p : bytes)
+  (** ** Exact characterisation of acceptance (at the level of the oracles).
+      [g = true]: the code as it is; [g = false]: the code before fix 0ebe7e9 (no revision gate). *)
+  Definition accept_spec_gen (g : bool) (cs : client_state) (cstore : bytes -> cons_entry) (h : height) (p : bytes)
              (ack : bool) (src dst : bytes) (seq : N) (c : bytes) : Prop :=
     exists r rootb sp v t,
       height_lt (cs_head cs) h = false /\
+      (g = true -> rn h = rn (cs_head cs)) /\
       json_proof p = Some r /\
       cstore (consensus_key h) = ConsRoot rootb /\
       delay_block cs <= sub64 (rh (cs_head cs)) (rh h) /\
@@ -63,13 +65,16 @@ Section Oracles.
                  (map from_hex (sr_proof sp)) = Some v /\
       rlp_decode_bytes v = Some t /\ left_pad32 t = c.
 
-  Lemma verify_ok_iff cs cstore oh op ack src dst seq c :
-    verify cs cstore oh op ack src dst seq c = Ok tt <->
-    exists h p, oh = Some h /\ op = Some p /\ accept_spec cs cstore h p ack src dst seq c.
+  Definition accept_spec := accept_spec_gen true.
+
+  Lemma verify_gen_ok_iff g cs cstore oh op ack src dst seq c :
+    EvmProof.verify_gen keccak256 mpt_verify json_proof g cs cstore oh op ack src dst seq c = Ok tt <->
+    exists h p, oh = Some h /\ op = Some p /\ accept_spec_gen g cs cstore h p ack src dst seq c.
   Proof.
-    unfold EvmProof.verify, produce_args. split.
+    unfold EvmProof.verify_gen, produce_args_gen. split.
     - destruct oh as [h|]; [|discriminate].
       destruct (height_lt (cs_head cs) h) eqn:G; [discriminate|].
+      destruct (g && negb (rn h =? rn (cs_head cs))) eqn:RG; [discriminate|].
       destruct op as [p|]; [|discriminate].
       destruct (json_proof p) as [r|] eqn:J; [|discriminate].
       destruct (cstore (consensus_key h)) as [| |rootb] eqn:S; try discriminate.
@@ -90,9 +95,14 @@ Section Oracles.
       intros _. apply check_proof_result_spec in C. destruct C as (t & C1 & C2).
       exists h, p. split; [reflexivity|]. split; [reflexivity|].
       exists r, rootb, sp, v, t. rewrite A in M1. rewrite K in M2. subst av.
+      assert (RV : g = true -> rn h = rn (cs_head cs)).
+      { intro Eg. subst g. cbn [andb] in RG. apply negb_false_iff, N.eqb_eq in RG. exact RG. }
       repeat (split; [assumption|]). assumption.
-    - intros (h & p & -> & -> & r & rootb & sp & v & t & G & J & S & D & A & M1 & SP & K & M2 & C1 & C2).
-      rewrite G, J, S.
+    - intros (h & p & -> & -> & r & rootb & sp & v & t & G & RV & J & S & D & A & M1 & SP & K & M2 & C1 & C2).
+      rewrite G.
+      replace (g && negb (rn h =? rn (cs_head cs))) with false.
+      2:{ symmetry. destruct g; [|reflexivity]. cbn [andb]. apply negb_false_iff, N.eqb_eq. apply RV. reflexivity. }
+      rewrite J, S.
       replace (sub64 (rh (cs_head cs)) (rh h) <? delay_block cs) with false
         by (symmetry; apply N.ltb_ge; exact D).
       unfold verify_merkle. rewrite A, bytes_eqb_refl. cbn [negb]. rewrite M1, bytes_eqb_refl. cbn [negb].
@@ -102,21 +112,66 @@ Section Oracles.
       reflexivity.
   Qed.
 
-  (** Acceptance never depends on the head beyond the two gates. *)
-  Lemma accept_change_head cs cs' cstore h p ack src dst seq c :
-    accept_spec cs cstore h p ack src dst seq c ->
+  Lemma verify_ok_iff cs cstore oh op ack src dst seq c :
+    verify cs cstore oh op ack src dst seq c = Ok tt <->
+    exists h p, oh = Some h /\ op = Some p /\ accept_spec cs cstore h p ack src dst seq c.
+  Proof. apply verify_gen_ok_iff. Qed.
+
+  Lemma verify_ok_iff_plain cs cstore oh op ack src dst seq c :
+    verify cs cstore oh op ack src dst seq c = Ok tt <->
+    exists h p, oh = Some h /\ op = Some p /\
+      exists r rootb sp v t,
+        height_lt (cs_head cs) h = false /\
+        rn h = rn (cs_head cs) /\
+        json_proof p = Some r /\
+        cstore (consensus_key h) = ConsRoot rootb /\
+        delay_block cs <= sub64 (rh (cs_head cs)) (rh h) /\
+        from_hex (p_address r) = cs_contract cs /\
+        mpt_verify (bytes_to_hash rootb) (keccak256 (cs_contract cs)) (map from_hex (p_account_proof r))
+          = Some (rlp_account (account_of_record r)) /\
+        p_storage_proof r = [Some sp] /\
+        hex_to_hash (sr_key sp) = proof_key ack src dst seq /\
+        mpt_verify (a_storage (account_of_record r)) (keccak256 (proof_key ack src dst seq))
+                   (map from_hex (sr_proof sp)) = Some v /\
+        rlp_decode_bytes v = Some t /\ left_pad32 t = c.
+  Proof.
+    rewrite verify_ok_iff. split.
+    - intros (h & p & E1 & E2 & r & rootb & sp & v & t & G & RV & Rest).
+      exists h, p. split; [exact E1|]. split; [exact E2|]. exists r, rootb, sp, v, t.
+      split; [exact G|]. split; [exact (RV eq_refl) | exact Rest].
+    - intros (h & p & E1 & E2 & r & rootb & sp & v & t & G & RV & Rest).
+      exists h, p. split; [exact E1|]. split; [exact E2|]. exists r, rootb, sp, v, t.
+      split; [exact G|]. split; [intros _; exact RV | exact Rest].
+  Qed.
+
+  (** the code before the fix accepted everything the repaired code accepts *)
+  Lemma verify_implies_old cs cstore oh op ack src dst seq c :
+    verify cs cstore oh op ack src dst seq c = Ok tt ->
+    EvmProof.verify_old keccak256 mpt_verify json_proof cs cstore oh op ack src dst seq c = Ok tt.
+  Proof.
+    intro V. apply verify_ok_iff in V. destruct V as (h & p & E1 & E2 & A).
+    apply verify_gen_ok_iff. exists h, p. split; [exact E1|]. split; [exact E2|].
+    destruct A as (r & rootb & sp & v & t & G & RV & Rest). exists r, rootb, sp, v, t.
+    split; [exact G|]. split; [discriminate | exact Rest].
+  Qed.
+
+  (** Acceptance of the OLD code never depended on the head beyond the two gates. *)
+  Lemma accept_old_change_head cs cs' cstore h p ack src dst seq c :
+    accept_spec_gen false cs cstore h p ack src dst seq c ->
     cs_contract cs' = cs_contract cs ->
     height_lt (cs_head cs') h = false ->
     delay_block cs' <= sub64 (rh (cs_head cs')) (rh h) ->
-    accept_spec cs' cstore h p ack src dst seq c.
+    accept_spec_gen false cs' cstore h p ack src dst seq c.
   Proof.
-    intros (r & rootb & sp & v & t & G & J & S & D & A & M1 & SP & K & M2 & C1 & C2) EC G' D'.
-    exists r, rootb, sp, v, t. rewrite EC. repeat (split; [assumption|]). assumption.
+    intros (r & rootb & sp & v & t & G & RV & J & S & D & A & M1 & SP & K & M2 & C1 & C2) EC G' D'.
+    exists r, rootb, sp, v, t. rewrite EC. split; [assumption|]. split; [discriminate|].
+    repeat (split; [assumption|]). assumption.
   Qed.
 
   (** ** Completeness: an honest proof of a present slot is accepted *)
   Lemma complete cs cstore h p r ack src dst seq c rootb sp :
     height_lt (cs_head cs) h = false ->
+    rn h = rn (cs_head cs) ->
     delay_block cs <= sub64 (rh (cs_head cs)) (rh h) ->
     json_proof p = Some r ->
     cstore (consensus_key h) = ConsRoot rootb ->
@@ -130,8 +185,9 @@ Section Oracles.
     length c = 32%nat ->
     verify cs cstore (Some h) (Some p) ack src dst seq c = Ok tt.
   Proof.
-    intros G D J S A M1 SP K M2 L. apply verify_ok_iff. exists h, p. split; [reflexivity|]. split; [reflexivity|].
+    intros G RV D J S A M1 SP K M2 L. apply verify_ok_iff. exists h, p. split; [reflexivity|]. split; [reflexivity|].
     exists r, rootb, sp, (rlp_string (strip_zeros c)), (strip_zeros c).
+    split; [assumption|]. split; [intros _; exact RV|].
     repeat (split; [assumption|]). split.
     - apply rlp_decode_encode. pose proof (strip_zeros_length c). unfold two64. lia.
     - unfold left_pad32. rewrite <- L. apply strip_zeros_pad.
@@ -215,9 +271,10 @@ Section Oracles.
       (forall q, In q (queries keccak256 mpt_verify json_proof cs cstore oh op ack src dst seq) -> agree q) ->
       verify cs cstore oh op ack src dst seq c = EvmProof.verify keccak2 mpt2 json2 cs cstore oh op ack src dst seq c.
     Proof.
-      unfold EvmProof.verify, produce_args, queries.
+      unfold EvmProof.verify, EvmProof.verify_gen, produce_args_gen, queries.
       destruct oh as [h|]; [|reflexivity].
       destruct (height_lt (cs_head cs) h); [reflexivity|].
+      cbn [andb]. destruct (negb (rn h =? rn (cs_head cs))); [reflexivity|].
       destruct op as [p|]; [|reflexivity].
       intro H.
       assert (HJ : json_proof p = json2 p) by (apply (H (QJson p)); left; reflexivity).
@@ -277,7 +334,7 @@ Section Oracles.
     Lemma accept_proves cs cstore h p ack src dst seq c :
       accept_spec cs cstore h p ack src dst seq c -> proves cs cstore h ack src dst seq c.
     Proof.
-      intros (r & rootb & sp & v & t & G & J & S & D & A & M1 & SP & K & M2 & C1 & C2).
+      intros (r & rootb & sp & v & t & G & RV & J & S & D & A & M1 & SP & K & M2 & C1 & C2).
       destruct (account_of_record_wf r) as (W & L1 & L2).
       exists rootb, (account_of_record r). repeat (split; [assumption|]). split.
       - intros world HW. rewrite (mpt_sound _ _ _ _ _ M1 HW). apply lookup_result_some, rlp_account_nonempty.
@@ -286,23 +343,18 @@ Section Oracles.
         intro E; subst v. discriminate.
     Qed.
 
-    (** Gates: what the code checks, and what that means numerically. *)
+    (** Gates: what the code checks ... *)
     Definition gates (cs : client_state) (h : height) : Prop :=
-      (rn h < rn (cs_head cs) \/ (rn h = rn (cs_head cs) /\ rh h <= rh (cs_head cs))) /\
+      rn h = rn (cs_head cs) /\ rh h <= rh (cs_head cs) /\
       delay_block cs <= sub64 (rh (cs_head cs)) (rh h).
 
+    (** ... and what that means numerically for a uint64 head: the subtraction cannot wrap *)
     Lemma gates_numeric cs h :
-      h64 h -> h64 (cs_head cs) -> gates cs h ->
-      (rn h = rn (cs_head cs) -> rh h <= rh (cs_head cs) /\ delay_block cs <= rh (cs_head cs) - rh h) /\
-      (rh h <= rh (cs_head cs) -> delay_block cs <= rh (cs_head cs) - rh h) /\
-      (rh (cs_head cs) < rh h -> rn h < rn (cs_head cs) /\ delay_block cs <= two64 - (rh h - rh (cs_head cs))).
+      h64 (cs_head cs) -> gates cs h ->
+      rn h = rn (cs_head cs) /\ rh h <= rh (cs_head cs) /\ delay_block cs <= rh (cs_head cs) - rh h.
     Proof.
-      intros [_ Hh] [_ HH] [G D]. split; [|split].
-      - intro E. assert (G' : rh h <= rh (cs_head cs)) by (destruct G as [G|[_ G]]; [lia | exact G]).
-        split; [exact G'|]. rewrite sub64_no_wrap in D by assumption. exact D.
-      - intro E. rewrite sub64_no_wrap in D by assumption. exact D.
-      - intro E. split; [destruct G as [G|[_ G]]; [exact G | lia]|].
-        rewrite sub64_wrap in D by assumption. exact D.
+      intros [_ HH] (R & G & D). split; [exact R|]. split; [exact G|].
+      rewrite sub64_no_wrap in D by assumption. exact D.
     Qed.
 
     Theorem sound cs cstore oh op ack src dst seq c :
@@ -311,8 +363,9 @@ Section Oracles.
     Proof.
       intro V. apply verify_ok_iff in V. destruct V as (h & p & -> & -> & A).
       exists h, p. split; [reflexivity|]. split; [reflexivity|]. split.
-      - destruct A as (r & rootb & sp & v & t & G & J & S & D & _). split; [|exact D].
-        apply height_lt_false in G. destruct G as [G|[G1 G2]]; [left; exact G | right; split; [symmetry; exact G1 | exact G2]].
+      - destruct A as (r & rootb & sp & v & t & G & RV & J & S & D & _).
+        specialize (RV eq_refl). split; [exact RV|]. split; [|exact D].
+        apply height_lt_false in G. destruct G as [G|[G1 G2]]; [lia | exact G2].
       - eapply accept_proves; eauto.
     Qed.
 
@@ -416,7 +469,7 @@ Section Oracles.
     json_proof p = Some r -> from_hex (p_address r) <> cs_contract cs ->
     verify cs cstore (Some h) (Some p) ack src dst seq c <> Ok tt.
   Proof.
-    intros J NA V. apply verify_ok_iff in V. destruct V as (h0 & p0 & E1 & E2 & r0 & rootb & sp & v & t & _ & J0 & _ & _ & A & _).
+    intros J NA V. apply verify_ok_iff in V. destruct V as (h0 & p0 & E1 & E2 & r0 & rootb & sp & v & t & _ & _ & J0 & _ & _ & A & _).
     inversion E2; subst p0. rewrite J in J0. inversion J0; subst r0. contradiction.
   Qed.
 
@@ -425,7 +478,7 @@ Section Oracles.
     verify cs cstore (Some h) (Some p) ack src dst seq c <> Ok tt.
   Proof.
     intros J SP NK V. apply verify_ok_iff in V.
-    destruct V as (h0 & p0 & E1 & E2 & r0 & rootb & sp0 & v & t & _ & J0 & _ & _ & _ & _ & SP0 & K & _).
+    destruct V as (h0 & p0 & E1 & E2 & r0 & rootb & sp0 & v & t & _ & _ & J0 & _ & _ & _ & _ & SP0 & K & _).
     inversion E2; subst p0. rewrite J in J0. inversion J0; subst r0. rewrite SP in SP0. inversion SP0; subst sp0. contradiction.
   Qed.
 
@@ -434,7 +487,7 @@ Section Oracles.
     verify cs cstore (Some h) (Some p) ack src dst seq c <> Ok tt.
   Proof.
     intros J NL V. apply verify_ok_iff in V.
-    destruct V as (h0 & p0 & E1 & E2 & r0 & rootb & sp0 & v & t & _ & J0 & _ & _ & _ & _ & SP0 & _).
+    destruct V as (h0 & p0 & E1 & E2 & r0 & rootb & sp0 & v & t & _ & _ & J0 & _ & _ & _ & _ & SP0 & _).
     inversion E2; subst p0. rewrite J in J0. inversion J0; subst r0. rewrite SP0 in NL. apply NL. reflexivity.
   Qed.
 
@@ -443,18 +496,27 @@ Section Oracles.
     verify cs cstore (Some h) (Some p) ack src dst seq c <> Ok tt.
   Proof.
     intros NS V. apply verify_ok_iff in V.
-    destruct V as (h0 & p0 & E1 & E2 & r0 & rootb & sp0 & v & t & _ & _ & S & _).
+    destruct V as (h0 & p0 & E1 & E2 & r0 & rootb & sp0 & v & t & _ & _ & _ & S & _).
     inversion E1; subst h0. exact (NS rootb S).
   Qed.
 
   Lemma reject_above_head cs cstore h p ack src dst seq c :
-    rn (cs_head cs) <= rn h -> (rn h = rn (cs_head cs) -> rh (cs_head cs) < rh h) ->
+    rh (cs_head cs) < rh h ->
     verify cs cstore (Some h) (Some p) ack src dst seq c <> Ok tt.
   Proof.
-    intros R H V. apply verify_ok_iff in V.
-    destruct V as (h0 & p0 & E1 & E2 & r0 & rootb & sp0 & v & t & G & _).
-    inversion E1; subst h0. apply height_lt_false in G. destruct G as [G|[G1 G2]]; [lia|].
-    symmetry in G1. specialize (H G1). lia.
+    intros H V. apply verify_ok_iff in V.
+    destruct V as (h0 & p0 & E1 & E2 & r0 & rootb & sp0 & v & t & G & RV & _).
+    inversion E1; subst h0. specialize (RV eq_refl).
+    apply height_lt_false in G. destruct G as [G|[G1 G2]]; lia.
+  Qed.
+
+  Lemma reject_other_revision cs cstore h p ack src dst seq c :
+    rn h <> rn (cs_head cs) ->
+    verify cs cstore (Some h) (Some p) ack src dst seq c <> Ok tt.
+  Proof.
+    intros H V. apply verify_ok_iff in V.
+    destruct V as (h0 & p0 & E1 & E2 & r0 & rootb & sp0 & v & t & G & RV & _).
+    inversion E1; subst h0. exact (H (RV eq_refl)).
   Qed.
 
   Lemma reject_unconfirmed cs cstore h p ack src dst seq c :
@@ -462,7 +524,7 @@ Section Oracles.
     verify cs cstore (Some h) (Some p) ack src dst seq c <> Ok tt.
   Proof.
     intros [_ HH] LE D V. apply verify_ok_iff in V.
-    destruct V as (h0 & p0 & E1 & E2 & r0 & rootb & sp0 & v & t & _ & _ & _ & D0 & _).
+    destruct V as (h0 & p0 & E1 & E2 & r0 & rootb & sp0 & v & t & _ & _ & _ & _ & D0 & _).
     inversion E1; subst h0. rewrite sub64_no_wrap in D0 by assumption. lia.
   Qed.
 
@@ -471,7 +533,7 @@ Section Oracles.
     verify cs cstore oh op ack src dst seq c <> Ok tt.
   Proof.
     intros NJ V. apply verify_ok_iff in V.
-    destruct V as (h0 & p0 & E1 & E2 & r0 & rootb & sp0 & v & t & _ & J & _).
+    destruct V as (h0 & p0 & E1 & E2 & r0 & rootb & sp0 & v & t & _ & _ & J & _).
     rewrite (NJ p0 E2) in J. discriminate.
   Qed.
 
@@ -500,18 +562,20 @@ Section Oracles.
     - rewrite EA. cbn [sr_proof]. rewrite map_from_hex_hex0x. exact M2.
   Qed.
 
-  (** ** The revision-number hole: both gates can be passed by a proof height ABOVE the head *)
-  Lemma gate_bypass cs cstore h p ack src dst seq c head' :
-    verify cs cstore (Some h) (Some p) ack src dst seq c = Ok tt ->
+  (** ** The revision-number hole of the code before fix 0ebe7e9: both gates could be passed by a proof
+      height ABOVE the head *)
+  Lemma gate_bypass_old cs cstore h p ack src dst seq c head' :
+    EvmProof.verify_old keccak256 mpt_verify json_proof cs cstore (Some h) (Some p) ack src dst seq c = Ok tt ->
     rn h < rn head' ->
     delay_block cs <= sub64 (rh head') (rh h) ->
-    verify {| cs_kind := cs_kind cs; cs_head := head'; cs_contract := cs_contract cs;
+    EvmProof.verify_old keccak256 mpt_verify json_proof
+           {| cs_kind := cs_kind cs; cs_head := head'; cs_contract := cs_contract cs;
               cs_block_delay := cs_block_delay cs; cs_nvalidators := cs_nvalidators cs |}
            cstore (Some h) (Some p) ack src dst seq c = Ok tt.
   Proof.
-    intros V R D. apply verify_ok_iff in V. destruct V as (h0 & p0 & E1 & E2 & A). inversion E1; inversion E2; subst h0 p0.
-    apply verify_ok_iff. exists h, p. split; [reflexivity|]. split; [reflexivity|].
-    eapply accept_change_head; [exact A | reflexivity | | exact D].
+    intros V R D. apply verify_gen_ok_iff in V. destruct V as (h0 & p0 & E1 & E2 & A). inversion E1; inversion E2; subst h0 p0.
+    apply verify_gen_ok_iff. exists h, p. split; [reflexivity|]. split; [reflexivity|].
+    eapply accept_old_change_head; [exact A | reflexivity | | exact D].
     cbn [cs_head]. apply height_lt_false. left. exact R.
   Qed.
 
@@ -541,16 +605,15 @@ Section Oracles.
                             rlp_decode_bytes raw = Some t -> c_gt_word c = Some (bytes_to_hash t).
 
     Lemma monitor_sound (c : ecase) (k : client_kind) h :
-      c_height c = Some h -> h64 h -> h64 (c_head c) -> rn h = rn (c_head c) ->
+      c_height c = Some h -> h64 (c_head c) ->
       gt_consistent c k h ->
       verify (cs_of c k) (cstore_of c) (c_height c) (c_proof c) (c_ack c) (c_src c) (c_dst c) (c_seq c) (c_commitment c) = Ok tt ->
       mon_copy c (delay_block (cs_of c k)) 0 = [].
     Proof.
-      intros EH Hh HH ER GT V. unfold mon_copy. cbn [Nat.eqb]. unfold accept_ok.
+      intros EH HH GT V. unfold mon_copy. cbn [Nat.eqb]. unfold accept_ok.
       apply (sound commits mpt_sound) in V. destruct V as (h0 & p & E1 & E2 & G & P).
       rewrite EH in E1. inversion E1; subst h0.
-      destruct (gates_numeric (cs_of c k) h Hh HH G) as (N1 & _ & _).
-      destruct (N1 ER) as [N2 N3]. cbn [cs_of cs_head] in N2, N3.
+      destruct (gates_numeric (cs_of c k) h HH G) as (_ & N2 & N3). cbn [cs_of cs_head] in N2, N3.
       unfold numeric_ok. rewrite EH.
       replace (rh h <=? rh (c_head c)) with true by (symmetry; apply N.leb_le; exact N2).
       replace (delay_block (cs_of c k) <=? rh (c_head c) - rh h) with true by (symmetry; apply N.leb_le; exact N3).
